@@ -15,6 +15,13 @@ INLINE_TAGS_SKIP = {"pre", "nowiki", "math", "hiero", "chem", "ce", "gallery", "
                     "html", "body", "head", "title", "script", "style", "form", "input", "select", "option", "textarea", "button"}
 
 
+# |-separated arguments of links and template calls, with the flat text their parsed form has
+ARG_ATOMS = {"a": "a", "b c": "b c", "k=v": "k=v", " x ": " x ", "1=z": "1=z", "t{{a|y}}": "t<TEMPLATE>", "[[l]]": "<LINK>", "": "",
+             "q r": "q r", "[[l|b [x] c]]": "<LINK>", "[[a [x] b]]": "<LINK>", "[x]": "[x]", "[http://x.y e]": "<URL>",
+             "[[l|see [http://x.y s] now]]": "<LINK>", "k=[[l|b [1] c]]": "k=<LINK>", "{{a|[[l|[y]]]}}": "<TEMPLATE>",
+             "{{{1|d}}}": "<TEMPLATE_ARG>"}
+
+
 def gen_attrs(rng, maxn=3):
     names = rng.sample(ANAMES, rng.randint(0, maxn))
     # values: from the pool, or the attribute's own name (nowrap="nowrap"), or its upper-case form
@@ -206,10 +213,10 @@ def run(run):
             texts.append("<%s%s>%s</%s>" % (tag, (" " + render_attrs(attrs, rng)) if attrs else "", inner, tag))
             checks.append(("html", {"tag": tag, "attrs": attrs, "id": cid[0]}))
     for _ in range(500 if quick else 5000):
-        args = [rng.choice(["a", "b c", "k=v", " x ", "1=z", "t{{a|y}}", "[[l]]", "", "q r"]) for _ in range(rng.randint(0, 5))]
+        args = [rng.choice(list(ARG_ATOMS)) for _ in range(rng.randint(0, 5))]
         kind = rng.choice(["link", "template", "ext"])
         if kind == "link":
-            args = [a.replace("[[l]]", "l") for a in args]
+            args = [a if "[" not in a else "l" for a in args]
             texts.append("[[Target" + "".join("|" + a for a in args) + "]]"); checks.append(("link", ["Target"] + args))
         elif kind == "template":
             texts.append("{{tpl" + "".join("|" + a for a in args) + "}}"); checks.append(("template", ["tpl"] + args))
@@ -310,7 +317,7 @@ def run(run):
                 run.property_failure("c03:%s:missing" % kind, "no %s node for %r: %s" % (k, t, json.dumps(tree)[:300]), t)
                 continue
             got = [flat(a) for a in ns[0]["a"]]
-            want = [a.replace("{{a|y}}", "<TEMPLATE>").replace("[[l]]", "<LINK>") for a in exp]
+            want = [ARG_ATOMS.get(a, a) for a in exp]
             if got != want:
                 run.property_failure("c03:%s:args" % kind, "arguments %r, written %r" % (got, want), t)
         else:
